@@ -211,7 +211,7 @@ class RunNode(NodeCallContract):
     name = 'run_node'
     returns = 'val'
     yields = True
-    props = ('C17', 'C12', 'C01', 'C03')
+    props = ('C17', 'C12', 'C01', 'C03', 'C08')
     doc = ('in every execution mode the outcome (value or exception) is that of exactly one call '
            'instance.process(**kwargs); the pool branch takes the executor of the right registry')
 
@@ -237,7 +237,7 @@ class RunNode(NodeCallContract):
         if ucs:
             first = ucs[0]
             fac = attr_fn('default_factory')(node)
-            out.append(('instance-created-from-the-node-class', z3.Or(T(first.fn, st) == node, T(first.fn, st) == fac)))
+            out.append(('a-new-instance-is-created-from-the-node-class-for-this-invocation|C08,C17', z3.Or(T(first.fn, st) == node, T(first.fn, st) == fac)))
         out.append(('at-most-one-body-invocation', len(body) <= 1))
         if outcome == 'return':
             ok = len(body) == 1 and body[0].result is not None
@@ -281,7 +281,7 @@ class RunNode(NodeCallContract):
 class RunNodeDefault(NodeCallContract):
     name = 'run_node_default'
     returns = 'val'
-    props = ('C12', 'C11')
+    props = ('C12', 'C11', 'C08')
     doc = 'the default is instance.get_default(**kwargs): one call, same keyword arguments'
 
     def setup(self, it):
